@@ -558,7 +558,7 @@ func smallNum(r interface{ Intn(int) int }, g *gen.G, t reflect.Type) gen.Expr {
 }
 
 func randCall(r interface{ Intn(int) int }, g *gen.G, id int64) *gen.CallE {
-	switch r.Intn(5) {
+	switch r.Intn(6) {
 	case 0:
 		return &gen.CallE{Name: "ti", Args: []gen.Expr{il(id), smallNum(r, g, tI8), smallNum(r, g, tU16), g.NumLeafInt(), smallNum(r, g, tU64)}}
 	case 1:
@@ -567,6 +567,9 @@ func randCall(r interface{ Intn(int) int }, g *gen.G, id int64) *gen.CallE {
 		return &gen.CallE{Name: "ts", Args: []gen.Expr{il(id), g.StrLeaf(), g.BoolLeaf()}}
 	case 3:
 		return &gen.CallE{Name: "tu", Args: []gen.Expr{il(id), smallNum(r, g, tU8), smallNum(r, g, tU32), smallNum(r, g, tI), smallNum(r, g, tU)}}
+	case 4:
+		// a callee with several results: the call yields the first one
+		return &gen.CallE{Name: "pr2", Args: []gen.Expr{il(id), g.NumLeafInt()}}
 	default:
 		// nested call and expression arguments
 		return &gen.CallE{Name: "ti", Args: []gen.Expr{il(id), il(3), &gen.Bin{Op: "+", L: il(1), R: il(1)}, &gen.CallE{Name: "idn", Args: []gen.Expr{g.NumLeafInt()}}, il(4)}}
